@@ -115,6 +115,7 @@ class Daemon:
         self.strace_log = os.path.join(self.dir, 'strace.log')
         self.args = list(args)
         self.proc = None
+        self.preexec = None
         self.out_path = os.path.join(self.dir, 'daemon.out')
 
     def header(self, check_delay=0.5, extra=''):
@@ -131,7 +132,7 @@ class Daemon:
             cmd = ['strace', '-D', '-ttt', '-o', self.strace_log, '-e', 'trace=' + STRACE_CALLS, '-e', 'signal=all'] + cmd
         self.out = open(self.out_path, 'wb')
         self.proc = subprocess.Popen(cmd, cwd=self.dir, env=env, stdout=self.out, stderr=subprocess.STDOUT,
-                                     start_new_session=True)
+                                     start_new_session=True, preexec_fn=self.preexec)
         self.pid = self.proc.pid
         return self
 
